@@ -80,7 +80,7 @@ func genC15(g *Rng, tier string, emit func(Op)) {
 	}
 	for _, l := range fixed {
 		for _, sig := range []bool{false, true} {
-			emit(Op{"op": "hashcommit", "class": "fixed", "vals": hxs(l), "issig": sig})
+			emit(Op{"ref": true, "op": "hashcommit", "class": "fixed", "vals": hxs(l), "issig": sig})
 		}
 	}
 	// list lengths crossing the sequence length boundaries (127/128/255/256/65535 bytes of body)
@@ -89,7 +89,7 @@ func genC15(g *Rng, tier string, emit func(Op)) {
 		for i := range l {
 			l[i] = g.bits(1 + g.intn(16))
 		}
-		emit(Op{"op": "hashcommit", "class": "seqlen", "vals": hxs(l), "issig": g.coin()})
+		emit(Op{"ref": true, "op": "hashcommit", "class": "seqlen", "vals": hxs(l), "issig": g.coin()})
 	}
 	// a body of > 65535 bytes
 	{
@@ -97,12 +97,12 @@ func genC15(g *Rng, tier string, emit func(Op)) {
 		for i := range l {
 			l[i] = g.exactBits(4500 + g.intn(500))
 		}
-		emit(Op{"op": "hashcommit", "class": "seqlen-64k", "vals": hxs(l), "issig": false})
+		emit(Op{"ref": true, "op": "hashcommit", "class": "seqlen-64k", "vals": hxs(l), "issig": false})
 		l2 := make([]*big.Int, 120)
 		for i := range l2 {
 			l2[i] = g.exactBits(4500 + g.intn(500))
 		}
-		emit(Op{"op": "hashcommit", "class": "seqlen-64k", "vals": hxs(l2), "issig": true})
+		emit(Op{"ref": true, "op": "hashcommit", "class": "seqlen-64k", "vals": hxs(l2), "issig": true})
 	}
 	for i := 0; i < nLists; i++ {
 		n := g.intn(6)
@@ -120,17 +120,17 @@ func genC15(g *Rng, tier string, emit func(Op)) {
 			}
 			l[j] = derInteresting(g, bits)
 		}
-		emit(Op{"op": "hashcommit", "class": "random", "vals": hxs(l), "issig": g.coin()})
+		emit(Op{"ref": true, "op": "hashcommit", "class": "random", "vals": hxs(l), "issig": g.coin()})
 	}
 	// attribute hash / sha256
 	for _, n := range []int{0, 1, 3, 55, 56, 57, 63, 64, 65, 119, 120, 128, 1000} {
-		emit(Op{"op": "inthash", "class": "pad-boundary", "data": hb(g.bytes(n))})
-		emit(Op{"op": "sha256", "class": "pad-boundary", "data": hb(g.bytes(n))})
+		emit(Op{"ref": true, "op": "inthash", "class": "pad-boundary", "data": hb(g.bytes(n))})
+		emit(Op{"ref": true, "op": "sha256", "class": "pad-boundary", "data": hb(g.bytes(n))})
 	}
-	emit(Op{"op": "sha256", "class": "nist", "data": hb([]byte("abc"))})
-	emit(Op{"op": "sha256", "class": "nist", "data": hb([]byte("abcdbcdecdefdefgefghfghighijhijkijkljklmklmnlmnomnopnopq"))})
+	emit(Op{"ref": true, "op": "sha256", "class": "nist", "data": hb([]byte("abc"))})
+	emit(Op{"ref": true, "op": "sha256", "class": "nist", "data": hb([]byte("abcdbcdecdefdefgefghfghighijhijkijkljklmklmnlmnomnopnopq"))})
 	for i := 0; i < nLists/4; i++ {
-		emit(Op{"op": "inthash", "class": "random", "data": hb(g.bytes(g.intn(700)))})
+		emit(Op{"ref": true, "op": "inthash", "class": "random", "data": hb(g.bytes(g.intn(700)))})
 	}
 	// hash-to-number expansion
 	for i := 0; i < nLists/2; i++ {
@@ -145,7 +145,7 @@ func genC15(g *Rng, tier string, emit func(Op)) {
 		if g.intn(3) == 0 {
 			bl = g.intn(3000)
 		}
-		emit(Op{"op": "hashnumber", "class": "random", "a": hx(a), "b": hx(b), "index": hxi(int64(g.intn(100000))), "bitlen": hxi(int64(bl))})
+		emit(Op{"ref": true, "op": "hashnumber", "class": "random", "a": hx(a), "b": hx(b), "index": hxi(int64(g.intn(100000))), "bitlen": hxi(int64(bl))})
 	}
 	// challenge sandwich
 	for i := 0; i < nLists/2; i++ {
@@ -154,7 +154,7 @@ func genC15(g *Rng, tier string, emit func(Op)) {
 		for j := range l {
 			l[j] = g.bits(1 + g.intn(2048))
 		}
-		emit(Op{"op": "challenge", "class": "random", "context": hx(g.bits(256)), "nonce": hx(g.bits(128)), "contribs": hxs(l), "issig": g.coin()})
+		emit(Op{"ref": true, "op": "challenge", "class": "random", "context": hx(g.bits(256)), "nonce": hx(g.bits(128)), "contribs": hxs(l), "issig": g.coin()})
 	}
 	_ = gobig.NewInt
 }
